@@ -35,7 +35,10 @@ def world_csum():
         prefixes=[[["ifchange", ["top"]], ["uwrite", "c", "U1\n"], ["ifchange", ["top"]]],
                   [["ifchange", ["top"]], ["ureplace", "c", "R\n"], ["ifchange", ["top"]], ["rm", "c"]],
                   # a rebuild of c killed after its redo-stamp had run
-                  [["ifchange", ["top"]], ["edit", "src", "2"], ["kbuild", ["top"], "c", "e"]]])
+                  [["ifchange", ["top"]], ["edit", "src", "2"], ["kbuild", ["top"], "c", "e"]],
+                  # the very first build of c killed after its redo-stamp had run: there is no c yet; what the user puts
+                  # there afterwards is the user's
+                  [["kbuild", ["top"], "c", "e"]]])
 
 
 def world_dir():
